@@ -102,7 +102,7 @@ Section Total.
         assert (Hb : forall body_node, In body_node (children_or_nil node) ->
                   fine (let* body := (if kind_is sk_BlockExpr body_node
                                       then let* stmts := lower_block_statements K body_node in
-                                           Ok (match into_then_expr stmts with Some e => e | None => error_without_span end)
+                                           Ok (match into_then_expr stmts with Some e => e | None => unit_without_span end)
                                       else k_expr K body_node) in
                         Ok (Some (PFnDefinition v s params (location_from_span params_span) rt body)))).
         { intros b Hin. apply lsize_in in Hin. apply fine_bind; [|intros; exact I].
